@@ -22,8 +22,10 @@ def jobs(tier, oracle):
                    rule=f"{n} value(s) decoded from symbolic tape(s) over grammar '{gname}', k symbolic; one path = one tuple of value shapes x one class of k",
                    describe=H.describe, must_exhaust=must)
     if tier == "quick":
-        return [job("quick", 1, 200), job("small", 2, 500), job("nested2", 2, 300, prefix=5), job("nestedx", 2, 300, prefix=5), job("eq", 2, 120, prefix=2)]
-    return [job("eq", 2, 60, prefix=2), job("eq", 3, 200, prefix=2), job("quick", 1, 60), job("small", 2, 150), job("nested2", 2, 100, prefix=5), job("nestedx", 2, 100, prefix=5),
+        return [job("quick", 1, 200), job("small", 2, 500), job("nested2", 2, 300, prefix=5), job("nestedx", 2, 300, prefix=5), job("eq", 2, 120, prefix=2),
+                job("odd", 2, 120, prefix=1), job("nestedalt", 2, 200, prefix=5), job("cls", 2, 200, prefix=3), job("dict3", 3, 200, prefix=3)]
+    return [job("eq", 2, 60, prefix=2), job("eq", 3, 200, prefix=2), job("odd", 2, 60, prefix=1), job("odd", 3, 300, prefix=1), job("nestedalt", 2, 100, prefix=5),
+            job("cls", 2, 100, prefix=3), job("dict3", 3, 100, prefix=3), job("quick", 1, 60), job("small", 2, 150), job("nested2", 2, 100, prefix=5), job("nestedx", 2, 100, prefix=5),
             job("full1", 1, 200), job("deep", 1, 250, prefix=4), job("medium", 2, 300, prefix=3), job("small", 3, 250, prefix=2),
             job("nested", 2, 300, prefix=5), job("nested2", 3, 250, prefix=5), job("nested4", 2, 250, prefix=6)]
 
